@@ -206,8 +206,8 @@ class Extractor:
             c = ("isnone", self._value(node.left))
             return ("not", c) if isinstance(node.ops[0], ast.IsNot) else c
         # <token value>.kind == "K" / != "K" / in ("K1", "K2") / not in (...): a test on the kind of a token taken earlier
-        if isinstance(node, ast.Compare) and len(node.ops) == 1 and isinstance(node.left, ast.Attribute) and node.left.attr == "kind" \
-                and isinstance(node.ops[0], (ast.Eq, ast.NotEq, ast.In, ast.NotIn)):
+        if isinstance(node, ast.Compare) and len(node.ops) == 1 and isinstance(node.ops[0], (ast.Eq, ast.NotEq, ast.In, ast.NotIn)) \
+                and ((isinstance(node.left, ast.Attribute) and node.left.attr == "kind") or isinstance(node.left, ast.Name)):
             comp = node.comparators[0]
             kinds = None
             if isinstance(comp, ast.Constant) and isinstance(comp.value, str) and isinstance(node.ops[0], (ast.Eq, ast.NotEq)):
@@ -216,7 +216,7 @@ class Extractor:
                     and isinstance(node.ops[0], (ast.In, ast.NotIn)):
                 kinds = tuple(e.value for e in comp.elts)
             if kinds is not None:
-                c = ("kindin", self._value(node.left.value), kinds)
+                c = ("kindin", self._value(node.left), kinds)
                 return ("not", c) if isinstance(node.ops[0], (ast.NotEq, ast.NotIn)) else c
         self.err(node, "condition")
 
@@ -337,8 +337,16 @@ class PathEnum:
             path.events.append(("tok", v[1], "consume", None))
             return ("tokv", len(path.events) - 1, v[1])
         if t == "advance":
-            path.events.append(("tok", ("*",), "advance", None))
-            return ("tokv", len(path.events) - 1, ("*",))
+            kinds = ("*",)
+            for pos, fact in reversed(path.facts):
+                if pos == len(path.events) and fact[0] == "next":
+                    kinds = tuple(fact[1])
+                    break
+                if pos < len(path.events):
+                    break
+            how = "advance" if kinds == ("*",) else "match"
+            path.events.append(("tok", kinds, how, None))
+            return ("tokv", len(path.events) - 1, kinds)
         if t == "nt":
             args = [self._eval(a, path) for a in v[2]]
             path.events.append(("nt", v[1], args, None))
@@ -346,7 +354,10 @@ class PathEnum:
         if t == "node":
             return ("node", v[1], {k: self._eval(a, path) for k, a in v[2].items()})
         if t == "attr":
-            return ("attr", self._eval(v[1], path), v[2])
+            base = self._eval(v[1], path)
+            if base == ("peek",) and v[2] == "kind":
+                return ("peekkind", len(path.events))
+            return ("attr", base, v[2])
         if t == "list":
             return ("list", [self._eval(e, path) for e in v[1]])
         if t in ("const", "ctok"):
@@ -402,6 +413,16 @@ class PathEnum:
             return [(yes, True), (no, False)]
         if t == "kindin":
             val = self._eval(c[1], path.clone())
+            if val[0] == "peekkind":
+                # the kind of the NEXT token, read with peek(): the same split as check(kinds), valid while no token was taken since
+                if val[1] != len(path.events):
+                    raise AnalysisError(f"grammar: the kind read with peek() is tested after another token was taken, in production {self.name}")
+                yes, no = path.clone(), path.clone()
+                yes.facts.append((len(yes.events), ("next", c[2])))
+                no.facts.append((len(no.events), ("nonext", c[2])))
+                return [(yes, True), (no, False)]
+            if val[0] == "attr" and val[2] == "kind":
+                val = val[1]
             if val[0] == "ctok":
                 return [(path, val[1] in c[2])]
             if val[0] != "tokv":
